@@ -93,6 +93,16 @@ MUTANTS = [
     ('m61', 'C08', 'break', 'skoolkit/skoolutils.py', "            bank = banks[next(i for i, b in enumerate(self.banks) if b is self.memory[3])]", "            bank = banks[self.banks.index(self.memory[3])]", 'opcodes:00'),
     ('m62', 'C15', 'break', 'skoolkit/skoolmacro.py', "            end += len(frame_id)\n            x = y = 0\n", "            end += len(frame_id)\n", None),
     ('m63', 'C15', 'break', 'skoolkit/skoolmacro.py', "        udg_array[-1].extend(FILL_UDG.copy() for n in range(width - len(udg_array[-1])))", "        udg_array[-1].extend((FILL_UDG,) * (width - len(udg_array[-1])))", None),
+    ('m64', 'C07', 'break', 'skoolkit/z80.py', "    if not instruction.operation.upper().startswith('DEF') and instruction.bytes:", "    if not instruction.operation.startswith('DEF') and instruction.bytes:", 'opcodes:00'),
+    ('m65', 'C09', 'break', 'skoolkit/bin2sna.py', "                data = list(read_bin_file(f, 0x4000))", "                data = list(read_bin_file(f, 0x3FFF))", None),
+    ('m66', 'C13', 'break', 'skoolkit/loadtracer.py', "                        state[8] = ((registers[25] + frame_duration - int_active) // frame_duration) * frame_duration\n        return func",
+     "                        state[8] = ((tstates + frame_duration - int_active) // frame_duration) * frame_duration\n        return func", 'opcodes:00'),
+    ('m67', 'C11', 'break', 'skoolkit/tape.py', "        s1 = tuple(get_word(data, k) for k in range(j, j + 2 * p1, 2))\n        j += 2 * p1", "        s1 = tuple(get_word(data, k) for k in range(j, j + 2 * p1, 2))\n        j += 2 * p0", None),
+    ('m68', 'C08', 'break', 'skoolkit/skoolutils.py', "            self.banks[page][:] = data", "            self.banks[page] = data", 'opcodes:00'),
+    ('m69', 'C10', 'break', 'skoolkit/trace.py', "        self.out7ffd = out7ffd", "        self.out7ffd = outfffd", None),
+    ('m70', 'C14', 'break', 'skoolkit/snactl.py', "            if data[address] & 1:", "            if data[address] == 1:", None),
+    ('m71', 'C13', 'break', 'skoolkit/loadtracer.py', "        if not data_block.fast_load or registers[F] % 2 == 0:", "        if not data_block.fast_load:", 'opcodes:00'),
+    ('m72', 'C14', 'break', 'skoolkit/comment.py', "        if len(values) < 2:\n            # A lone DD/FD prefix (before an opcode it does not affect)\n            return '', None\n", "", None),
     # harmless edits: must not raise an alarm
     ('h01', 'C05', 'harmless', 'skoolkit/simulator.py',
      "            pcn = registers[24] + 1\n            registers[:2] = af[registers[0]][memory[pcn % 65536]]\n            registers[15] = R1[registers[15]] # R\n            registers[25] += 7 # T-states\n            registers[24] = (pcn + 1) % 65536 # PC",
